@@ -12,6 +12,7 @@ float/double: lexical recogniser (Spec) + agreement between (b) and (c) only."""
 import json, re
 import common
 from props import c09_facets
+from props import c09_duration
 
 PID = "C09"
 GEN = ["Codec"]
@@ -29,6 +30,8 @@ THEOREMS = ["XV.Props.C09." + t for t in (
     "datetime_orig_fails",
     "bounds_spec", "inherit_eq_conjunction", "inherit_eq_conjunction_decimal", "restriction_monotone",
     "length_inherit_eq_conjunction", "list_iff", "union_iff",
+    "duration_indeterminate_iff", "duration_order_strict_partial", "duration_compare_sweep_partial",
+    "duration_lexical_partial", "duration_lexical_orig_fails", "duration_compare_shortcut_fails",
 )]
 RULE = ("decimal/integer: every string of length <= 5 over {0,1,9,.,+,-,space,e} (exhaustive), the product "
         "sign x integer-part x fraction x white-space/garbage decoration, boundary numerals of every derived integer "
@@ -50,9 +53,12 @@ ASSUMPTIONS = ["strings shorter than 2^31 units (the C++ keeps digit counts in i
                "float/double numeric comparison (strtod) is outside the model: lexical recogniser and (b)/(c) agreement only",
                "in-parse validation is represented by the built-in validator applied to the whitespace-normalised string",
                "date/time: years of at most 9 digits, fractional seconds of at most 9 digits (the C++ holds them in int / double); "
-               "second = 60 accepted; year arithmetic linear as in XSD 1.0 Appendix E; durations: (b)/(c) agreement only",
+               "second = 60 accepted; year arithmetic linear as in XSD 1.0 Appendix E",
+               "xs:duration: the model is the code as it stands (shortcut compareOrder on the raw fields included); the lexical theorem is kernel-checked on every string "
+               "of length <= 4 over {P T 1 Y M D H S . -}, the order theorem on the month-length boundary family (0..14 months against 28n..31n+2 days, both argument "
+               "orders, and hours), longer strings and other mixes by correspondence only; fractional seconds are outside the order theorems",
                "date/time field parsers are represented by the Spec's lexical recogniser (not code-shaped)"]
-TRUSTED = ["XV.Spec.Decimal, XV.Spec.Codec, XV.Spec.Ws, XV.Spec.DateTime (XSD 1.0 Part 2 lexical/value spaces as transcribed)",
+TRUSTED = ["XV.Spec.Decimal, XV.Spec.Codec, XV.Spec.Ws, XV.Spec.DateTime, XV.Spec.Duration (XSD 1.0 Part 2 lexical/value spaces as transcribed)",
            "tools/props/c09.py: value ranges of the derived integer types (XSD 1.0 Part 2 section 3.3)"]
 
 # ------------------------------------------------------------------ helpers
@@ -994,7 +1000,7 @@ def datetime_type_cases(ctx):
 def correspondence(ctx):
     V = Viol(ctx)
     total, distinct = 0, set()
-    for fn in (check_numeric, check_order, check_codecs, check_ws, check_dates, check_types, c09_facets.check_facets):
+    for fn in (check_numeric, check_order, check_codecs, check_ws, check_dates, check_types, c09_facets.check_facets, c09_duration.check_durations):
         n, d = fn(ctx, V)
         total += n
         distinct |= d
